@@ -333,6 +333,117 @@ def build_fn(OBDD, tt, variables, ordering, style=0):
     return o
 
 
+def mismatch_block(k):
+    from pyModelChecking.BDD import OBDD
+    A = OBDD('a & b', ['a', 'b', 'c'])
+    B = OBDD('a | c', ['c', 'a', 'b'])
+    C = OBDD('a', ['a', 'b'])
+    for x, y in ((A, B), (B, A), (A, C), (C, B)):
+        for op in ('__and__', '__or__', '__xor__'):
+            try:
+                getattr(x, op)(y)
+            except Exception:
+                pass
+    # a diagram (built from raw nodes) that tests a variable outside the
+    # ordering, at the root and below it
+    from pyModelChecking.BDD import BDDNode
+    T, Fz = BDDNode(1), BDDNode(0)
+    zed = BDDNode('z', Fz, T)
+    raw = [(zed, ['a', 'b']),
+           (BDDNode('a', zed, T), ['a', 'b']),
+           (BDDNode('a', zed, T), ['b', 'a']),
+           (BDDNode('a', BDDNode('b', zed, Fz), T), ['a', 'b', 'c']),
+           (BDDNode('b', Fz, BDDNode('w', T, Fz)), ['c', 'b', 'a'])]
+    for node, o in raw:
+        LOG.hit('c17.mismatch')
+        LOG.sig['mismatch:raw_node_foreign_variable'] += 1
+        try:
+            OBDD(node, list(o))
+            got = 'built'
+        except RuntimeError:
+            continue
+        except Exception as e:
+            got = mon.fmt_exc(e)
+        LOG.violation('c17.mismatch', PROP,
+                      {'expr': str(node), 'ordering': o,
+                       'route': 'OBDD(BDDNode, ordering)'}, got,
+                      'RuntimeError',
+                      note='a diagram with a variable outside the '
+                           'ordering was not rejected with RuntimeError')
+    # the same again while diagrams that legitimately test z / w / q
+    # under OTHER orderings are alive (their nodes are shared through the
+    # unique table, so anything remembered per node -- "already
+    # validated", "level of this node" -- is remembered across orderings)
+    import gc
+    alive = [OBDD('z', ['z', 'a', 'b']), OBDD('z & a', ['a', 'z']),
+             OBDD('w | z', ['w', 'z', 'a', 'b', 'c']),
+             OBDD('(q & ~a) | (~q & a)', ['q', 'a']), OBDD('~w', ['w']),
+             OBDD('(a & z) | b', ['a', 'b', 'z'])]
+    for a in alive:
+        a.restrict('a', k % 2)
+        ~a
+    foreign = [(a.root, o) for a in alive
+               for o in (['a', 'b'], ['a', 'b', 'c'])
+               if not set(a.variables()) <= set(o)]
+    for node, o in raw + foreign:
+        LOG.hit('c17.mismatch')
+        LOG.sig['mismatch:foreign_variable_alive_elsewhere'] += 1
+        try:
+            OBDD(node, list(o))
+            got = 'built'
+        except RuntimeError:
+            continue
+        except Exception as e:
+            got = mon.fmt_exc(e)
+        LOG.violation('c17.mismatch', PROP,
+                      {'expr': str(node), 'ordering': o,
+                       'route': 'OBDD(BDDNode, ordering), node alive '
+                                'under another ordering'}, got,
+                      'RuntimeError',
+                      note='a diagram with a variable outside the '
+                           'ordering was not rejected with RuntimeError')
+    for phase in ('alive', 'dropped'):
+        if phase == 'dropped':
+            del alive, foreign, a
+            gc.collect()
+        for expr, o in (('a & z', ['a', 'b']), ('q', ['a']),
+                        ('a | (b & w)', ['b', 'a']), ('z', ['a', 'b']),
+                        ('z | False', ['a', 'b']),
+                        ('z & True', ['a', 'b']), ('(z & ~b) | (~z & b)', ['a', 'b']),
+                        ('~z', ['b']), ('~w | a', ['a', 'c']),
+                        ('(a & z) | b', ['a', 'b', 'c']),
+                        ('a | (q & True)', ['a', 'b'])):
+            LOG.hit('c17.mismatch')
+            LOG.sig['mismatch:expr_foreign_variable:' + phase] += 1
+            try:
+                got = 'built %s' % OBDD(expr, list(o))
+            except RuntimeError:
+                continue
+            except Exception as e:
+                got = mon.fmt_exc(e)
+            LOG.violation('c17.mismatch', PROP,
+                          {'expr': expr, 'ordering': o,
+                           'other_diagrams_on_that_variable': phase},
+                          got, 'RuntimeError',
+                          note='variable outside the ordering accepted')
+    for expr, o in (('a & z', ['a', 'b']), ('q', ['a']),
+                    ('a | (b & w)', ['b', 'a'])):
+        LOG.hit('c17.mismatch')
+        try:
+            OBDD(expr, o)
+            LOG.violation('c17.mismatch', PROP,
+                          {'expr': expr, 'ordering': o}, 'built',
+                          'RuntimeError',
+                          note='variable outside the ordering accepted')
+        except RuntimeError:
+            pass
+        except Exception as e:
+            LOG.violation('c17.mismatch', PROP,
+                          {'expr': expr, 'ordering': o},
+                          mon.fmt_exc(e), 'RuntimeError',
+                          note='wrong exception')
+
+
 def run(ctx):
     attach()
     from pyModelChecking.BDD import OBDD
@@ -457,57 +568,7 @@ def run(ctx):
     for k in range(40):
         if not ctx.mine(k):
             continue
-        A = OBDD('a & b', ['a', 'b', 'c'])
-        B = OBDD('a | c', ['c', 'a', 'b'])
-        C = OBDD('a', ['a', 'b'])
-        for x, y in ((A, B), (B, A), (A, C), (C, B)):
-            for op in ('__and__', '__or__', '__xor__'):
-                try:
-                    getattr(x, op)(y)
-                except Exception:
-                    pass
-        # a diagram (built from raw nodes) that tests a variable outside the
-        # ordering, at the root and below it
-        from pyModelChecking.BDD import BDDNode
-        T, Fz = BDDNode(1), BDDNode(0)
-        zed = BDDNode('z', Fz, T)
-        raw = [(zed, ['a', 'b']),
-               (BDDNode('a', zed, T), ['a', 'b']),
-               (BDDNode('a', zed, T), ['b', 'a']),
-               (BDDNode('a', BDDNode('b', zed, Fz), T), ['a', 'b', 'c']),
-               (BDDNode('b', Fz, BDDNode('w', T, Fz)), ['c', 'b', 'a'])]
-        for node, o in raw:
-            LOG.hit('c17.mismatch')
-            LOG.sig['mismatch:raw_node_foreign_variable'] += 1
-            try:
-                OBDD(node, list(o))
-                got = 'built'
-            except RuntimeError:
-                continue
-            except Exception as e:
-                got = mon.fmt_exc(e)
-            LOG.violation('c17.mismatch', PROP,
-                          {'expr': str(node), 'ordering': o,
-                           'route': 'OBDD(BDDNode, ordering)'}, got,
-                          'RuntimeError',
-                          note='a diagram with a variable outside the '
-                               'ordering was not rejected with RuntimeError')
-        for expr, o in (('a & z', ['a', 'b']), ('q', ['a']),
-                        ('a | (b & w)', ['b', 'a'])):
-            LOG.hit('c17.mismatch')
-            try:
-                OBDD(expr, o)
-                LOG.violation('c17.mismatch', PROP,
-                              {'expr': expr, 'ordering': o}, 'built',
-                              'RuntimeError',
-                              note='variable outside the ordering accepted')
-            except RuntimeError:
-                pass
-            except Exception as e:
-                LOG.violation('c17.mismatch', PROP,
-                              {'expr': expr, 'ordering': o},
-                              mon.fmt_exc(e), 'RuntimeError',
-                              note='wrong exception')
+        mismatch_block(k)
     ctx.extra['reach'] = probes.result()
 
 
@@ -523,15 +584,8 @@ def replay(ctx, rep):
     from pyModelChecking.BDD import OBDD
     c = rep['case']
     if 'orderings' in c or 'expr' in c:
-        A = OBDD('a & b', ['a', 'b', 'c'])
-        B = OBDD('a | c', ['c', 'a', 'b'])
-        C = OBDD('a', ['a', 'b'])
-        for x, y in ((A, B), (B, A), (A, C), (C, B)):
-            for op in ('__and__', '__or__', '__xor__'):
-                try:
-                    getattr(x, op)(y)
-                except Exception:
-                    pass
+        mismatch_block(0)
+        mismatch_block(1)
         return
     ol = c['ordering']
     V = sorted(ol)
